@@ -141,9 +141,7 @@ func rollWriterAnchor(add func(string, int64, bool)) {
 			case *ast.AssignStmt:
 				for _, l := range x.Lhs {
 					if strings.HasSuffix(exprStr(f.fset, l), ".currFile") {
-						if len(x.Rhs) != 1 || exprStr(f.fset, x.Rhs[0]) != "nil" {
-							reopens = true
-						}
+						reopens = true // also `= nil`: the next Write then reopens <name>.log by name
 					}
 				}
 			}
